@@ -1,5 +1,6 @@
 import OmbottModel.Drv.Range
 import OmbottModel.Drv.Router
+import OmbottModel.Drv.RouterEdit
 /-! Dispatch of a protocol line to the area handlers.  `State` holds the few models that are
 driven as state machines across lines (router, multipart feed, header store). -/
 namespace Drv
@@ -19,6 +20,7 @@ def step (st : State) (line : String) : State × String :=
     match area with
     | "range" => pure? (Range.handle rest)
     | "router" => pure? (Router.handle rest)
+    | "redit" => pure? (RouterEdit.handle rest)
     | _ => (st, "bad-op")
 
 end Drv
